@@ -1,5 +1,5 @@
 (* The model instantiated with the tables regenerated from /repo's current source. *)
-From SqlModel Require Import Base PyStr Re Lexer SplitDefs Splitter.
+From SqlModel Require Import Base PyStr Re Lexer SplitDefs Splitter Node Passes.
 From SqlModel.Gen Require Import Atoms CaseTabs KwTabs Rules SplitTab.
 
 Definition cur_lex (t : text) : res (list tok) := lex lower upper sql_regex kws t.
@@ -16,3 +16,9 @@ Definition cur_process (stream : list tok) : list (list tok) :=
 
 Definition cur_split_stream (t : text) : res (list (list tok)) :=
   toks <- cur_lex t ;; Ok (cur_process toks).
+
+(* parse(): lex, split, group each statement; group_upto k stops after the first k passes *)
+Definition cur_parse_upto (k : nat) (t : text) : res (list node) :=
+  stmts <- cur_split_stream t ;; mapM (fun s => group_upto k (statement_of s)) stmts.
+Definition cur_parse (t : text) : res (list node) :=
+  stmts <- cur_split_stream t ;; mapM (fun s => group (statement_of s)) stmts.
